@@ -31,6 +31,9 @@ pub const ENTRIES: [Entry; 4] = [Entry::ParsePartial, Entry::CheckPartial, Entry
 pub fn check_sub(ctx: &mut Ctx, gi: &GInfo, rule: usize, host: &str, a: usize, b: usize) -> CaseResult {
     ctx.ev.eval();
     let name = gi.rules[rule].0.clone();
+    if !well_founded(ctx, gi, rule, host, a, b) || !well_founded(ctx, gi, rule, host, a, host.len()) {
+        return CaseResult::Ok;
+    }
     let copy_span: String = host[a..b].to_string();
     let copy_pos: String = host[a..].to_string();
     // second relation: other text outside [a,b)
